@@ -27,10 +27,10 @@ FORMATS_IMG = {
     "pptx": dict(types=["png", "jpeg", "gif", "bmp"], units=3, unit_attr=True, opts={"img_ref": ["parent", "parent", "absolute", "relative"], "permute_parts": [False, True]}),
     "xlsx": dict(types=["png", "jpeg", "gif", "bmp"], units=3, unit_attr=False, opts={"img_ref": ["parent", "absolute"], "permute_parts": [False, False, True], "disp": [False, False, True], "vml_first": [False, True]}),
     "odt": dict(types=["png", "jpeg", "gif", "bmp"], units=1, unit_attr=False, opts={"img_ref": ["relative", "relative", "dot"], "disp": [False, False, True]}),
-    "odp": dict(types=["png", "jpeg", "gif", "bmp"], units=3, unit_attr=True, opts={"img_ref": ["relative", "relative", "dot"], "disp": [False, False, True]}),
+    "odp": dict(types=["png", "jpeg", "gif", "bmp"], units=3, unit_attr=True, opts={"img_ref": ["relative", "relative", "dot"], "disp": [False, False, True], "share_media": [False, True]}),
     "ods": dict(types=["png", "jpeg", "gif", "bmp"], units=3, unit_attr=False, opts={"img_ref": ["relative", "relative", "dot"], "disp": [False, False, True]}),
     "odg": dict(types=["png", "jpeg", "gif", "bmp"], units=2, unit_attr=False, opts={"img_ref": ["relative", "relative", "dot"]}),
-    "epub": dict(types=["png", "jpeg", "gif", "bmp"], units=3, unit_attr=False, opts={}),
+    "epub": dict(types=["png", "jpeg", "gif", "bmp"], units=3, unit_attr=False, opts={"ghost_image": [False, False, True]}),
     "pdf": dict(types=["jpeg"], units=3, unit_attr=True, opts={"flate_images": [False, False, True]}),
     "rtf": dict(types=["png", "jpeg"], units=3, unit_attr=True, opts={"hex_wrap": [0, 64, 128]}),
 }
@@ -135,8 +135,9 @@ def judge(case):
         if fmt in UNIT_VIEW and (placed or unit_views) and [v for v in unit_views] != want_views and not fails:
             fails.append(("unit-attribution", f"units carry {[len(v) for v in unit_views]} images, placed {[len(v) for v in want_views]} (or different images)"))
         if spec["unit_attr"] and not fails:
-            for g in got:
-                p = by_bytes.get(g["bytes"])
+            same_order = [g["bytes"] for g in got] == want_bytes       # then the i-th returned image is the i-th placement (two placements may carry the same bytes)
+            for gi, g in enumerate(got):
+                p = placed[gi] if same_order else by_bytes.get(g["bytes"])
                 if p and g["unit"] != p[0] + 1:
                     fails.append(("unit-attribution", f"image on source unit {p[0] + 1} reports unit_number {g['unit']}"))
                     break
@@ -197,7 +198,7 @@ def validate(case):
     for u in case["units"]:
         for i in u:
             if i["k"] == "img":
-                assert i["type"] in spec["types"] and 1 <= i["w"] <= 64 and 1 <= i["h"] <= 64 and isinstance(i["seed"], int) and i["seed"] not in seeds
+                assert i["type"] in spec["types"] and 1 <= i["w"] <= 64 and 1 <= i["h"] <= 64 and isinstance(i["seed"], int) and (i["seed"] not in seeds or i.get("dup"))
                 seeds.add(i["seed"])
             else:
                 assert i["k"] == "p" and len(i["tok"]) == 7
@@ -227,6 +228,11 @@ def cases(draw, fmt):
             else:
                 items.append({"k": "p", "tok": tok()})
         units.append(items)
+    if "share_media" in spec["opts"] and len(units) >= 2:
+        # the same picture again on a later slide
+        firsts = [it for it in units[0] if it["k"] == "img"]
+        if firsts and draw(st.booleans()):
+            units[-1].append(dict(firsts[0], dup=True))
     if fmt in ("docx", "odt") and not any(units):
         units[0].append({"k": "p", "tok": tok()})
     opts = {k: draw(st.sampled_from(v)) for k, v in spec["opts"].items()}
